@@ -19,6 +19,14 @@ Step ==
     \/ A.n = "RemoveAbsent" /\ RemoveAbsent(A.p, A.c)
     \/ A.n = "RemoveAll" /\ RemoveAll(A.p)
     \/ A.n = "SetChildren" /\ SetChildren(A.p, A.s)
+    \/ A.n = "SetChildrenSame" /\ SetChildrenSame(A.p)
+    \/ A.n = "AddAttached" /\ AddAttached(A.p, A.c, A.i)
+    \/ A.n = "InsertAttached" /\ InsertAttached(A.p, A.k, A.c, A.i)
+    \/ A.n = "CoreAdd" /\ CoreAdd(A.k, A.a, A.i)
+    \/ A.n = "Purge" /\ Purge(A.k, A.a)
+    \/ A.n = "Discharge" /\ Discharge(A.k, A.a)
+    \/ A.n = "Swap" /\ Swap(A.k, A.a, A.b)
+    \/ A.n = "SortRing" /\ SortRing(A.k)
     \/ A.n = "MoveTo" /\ MoveTo(A.c, A.i)
     \/ A.n = "Sort" /\ Sort(A.p)
     \/ A.n = "Reestablish" /\ Reestablish(A.p)
@@ -28,9 +36,15 @@ ObsMatch == \/ Obs' = Ev.post
             \/ /\ Obs' # Ev.post
                /\ PrintT(ToJson([mismatch |-> Traces[tid].id, at |-> l, expected |-> Obs']))
                /\ FALSE
+\* an event that matches the known deviation (module header of CompositeTree, Deviant = TRUE) is told apart from a rejection:
+\* it is reported on its own line, and the history ends there (Broken is terminal)
+Deviation == (act'.n \in {"AddAttached", "InsertAttached"} /\ act'.out = "stale")
+                => PrintT(ToJson([deviant |-> Traces[tid].id, at |-> l, n |-> act'.n]))
 TNext == /\ l <= Len(Traces[tid].ev) /\ l' = l + 1 /\ tid' = tid
+         /\ ~Broken
          /\ Step
          /\ ObsMatch
+         /\ Deviation
 TSpec == TInit /\ [][TNext]_<<vars, err, act, tid, l>>
 Progress == IF TLCGet(tid) < l THEN TLCSet(tid, l) ELSE TRUE
 Report == LET bad == {t \in 1..NT : TLCGet(t) # Len(Traces[t].ev) + 1} IN
